@@ -1034,6 +1034,18 @@ fn determinism_check(id: &str, root: u64, n: u64) -> Result<(), String> {
             return Err(format!("run index {i}: event-log digest differs between two executions"));
         }
     }
+    // A third execution with many workers: most of the runs are then the first simulation of their process, whereas
+    // with 3 workers almost all of them are later ones (this is the comparison that would have caught the first-run leak
+    // described in DESIGN.md 8.5).
+    let c = run_batch(id, root, n, 600, 32, true, false, false);
+    for (i, d) in a.merged.digests.iter() {
+        if c.merged.digests.get(i) != Some(d) {
+            return Err(format!("run index {i}: event-log digest differs between an early and a late execution within a process"));
+        }
+    }
+    for (_, path, _) in c.merged.violations.iter() {
+        let _ = std::fs::remove_file(path);
+    }
     // Clean up replay files that the self-test batches may have written (the main batch rewrites them).
     for (_, path, _) in a.merged.violations.iter().chain(b.merged.violations.iter()) {
         let _ = std::fs::remove_file(path);
@@ -1047,7 +1059,7 @@ pub fn cmd_selftest(args: &[String]) -> i32 {
     let mut bad = 0;
     for s in SPECS {
         match determinism_check(s.id, root, n) {
-            Ok(()) => println!("determinism {}: {n} seeds x 2 executions (3 and 7 workers): identical", s.id),
+            Ok(()) => println!("determinism {}: {n} seeds x 2 executions (3, 7 and 32 worker processes): identical", s.id),
             Err(e) => {
                 println!("determinism {}: FAILED: {e}", s.id);
                 bad += 1;
